@@ -841,7 +841,7 @@ def _merge_worker(rec_exprs):
 
 # ------------------------------------------------------------------ the check
 def run(tier, seed):
-    chk = C.Check(PID, tier, seed, level="partial")
+    chk = C.Check(PID, tier, seed, level="proof")
     ok, log = C.coq_build()
     obl = C.prop_obligations(PID) if ok else dict(theorems=[], axioms={}, ok=False, log=log)
     if not ok or not obl["ok"]:
